@@ -1,5 +1,6 @@
 import MidnightZK.Model.C20.Verify
 import MidnightZK.Model.C20.MultiOpen
+import MidnightZK.Model.C20.MultiOpenValue
 /-!
 # `VerifierGadget::prepare` from the transcript scalars to the accumulator (executable model)
 
@@ -137,6 +138,34 @@ def offRun (toF : Nat → F) (inv : F → F) (f : Fld) (names : Names) (sh : Sha
     let sf := toF (powMod ch.x (2 ^ cs.k - 1) f.p)
     (offMultiPrepare inv names sf (sh.degree - 1) pt inp.queries inp.qEvals inp.x1 inp.x2 inp.x3 inp.x4).map
       fun a => (r, a)
+
+/-- The off-circuit verifier as `offRun`, but with `kzg::multi_prepare` grouping the queries by the
+VALUE of their point (as `proofs/src/poly/kzg/utils.rs` does), together with the two hypotheses of
+`C20.in_circuit_acc_eq_off_circuit` evaluated on this proof: `inj` — different rotations among the
+queries give different points; `wf` — the grouping is well formed (`groupingWF`). -/
+def offRunV (toF : Nat → F) (inv : F → F) (f : Fld) (names : Names) (sh : Shape) (cs : VCS) (nCommitted : Nat)
+    (plain : List (List Nat)) (stream : List (Bool × Nat)) : Option (Acc F VBase × Bool × Bool) :=
+  let cfg : Cfg := { nProofs := 1, nCommitted := nCommitted, lens := [plain.map List.length] }
+  match Label.label (Label.scalarEvents sh cfg) stream with
+  | none => none
+  | some m =>
+    let get := Label.getTag m
+    let ch := Label.challengesOfTags sh.challengePhase.length get
+    let xn := xnOf f.p cs.k ch.x
+    let maxLen := (plain.map List.length).foldl max 0
+    let ev := Label.proofEvalsOfTags f cs nCommitted get ch.x xn maxLen plain 0
+    let com := Label.commonEvalsOfTags cs get
+    let r := verifyIds f cs com ch [ev]
+    let inp : MOInput F := moInput toF sh nCommitted m ev.inst ev.advice com.fixed r.h
+    let pt := fun (rot : Int) => toF (rotateOmega f cs.k ch.x rot)
+    let sf := toF (powMod ch.x (2 ^ cs.k - 1) f.p)
+    let inj := inp.queries.all fun q => inp.queries.all fun q' =>
+      decide (pt q.point ≠ pt q'.point) || decide (q.point = q'.point)
+    let wf := match C14.constructIntermediateSets (0 : F) inp.queries with
+      | some (cm, ps) => groupingWF cm ps
+      | none => true
+    (offMultiPrepareV inv names sf (sh.degree - 1) (inp.queries.map (queryAt pt)) inp.qEvals
+      inp.x1 inp.x2 inp.x3 inp.x4).map fun a => (a, inj, wf)
 
 end
 
